@@ -209,11 +209,6 @@ func (s *SpokFile) run(stream iostream.IOStream, runner shell.Runner, force bool
 		return nil, fmt.Errorf("Could not load spok cache file at %q: %s", cachePath, err)
 	}
 
-	// Whether or not we want to update the cache after running e.g.
-	// if there were no file dependencies to update or if the task
-	// did not succeed
-	updateCache := true
-
 	for _, taskToRun := range runOrder {
 		simhook.Point("run.task.before", taskToRun.Name)
 		// Gather up all the files to be hashed into a single slice
@@ -232,21 +227,10 @@ func (s *SpokFile) run(stream iostream.IOStream, runner shell.Runner, force bool
 
 		s.logger.Debug("Task %s depends on %d files", taskToRun.Name, len(toHash))
 
-		// If the task did not declare any file dependencies, let's not
-		// update the cache, this way it will always run
-		if len(toHash) == 0 {
-			updateCache = false
-		}
-
-		var hasher hash.Hasher
-		if force {
-			hasher = hash.AlwaysRun{}
-		} else {
-			hasher = hash.New()
-		}
-
+		// The real digest is always calculated, even with force, so that a successful
+		// forced run is recorded against the inputs it actually ran on
 		hashStart := time.Now()
-		currentDigest, err := hasher.Hash(toHash)
+		currentDigest, err := hash.New().Hash(toHash)
 		if err != nil {
 			return nil, err
 		}
@@ -254,11 +238,8 @@ func (s *SpokFile) run(stream iostream.IOStream, runner shell.Runner, force bool
 
 		// By the time we get here, we know the cache file will exist (even if it has no digests)
 		// so we can go ahead and load as normal. If a task is not in the cache, it means it was
-		// added to the spokfile since we last ran a cache, so add it to the current cachedState
-		cachedDigest, ok := cachedState.Get(taskToRun.Name)
-		if !ok {
-			cachedState.Set(taskToRun.Name, "")
-		}
+		// added to the spokfile since we last ran a cache, in which case the digest is empty
+		cachedDigest, _ := cachedState.Get(taskToRun.Name)
 
 		s.logger.Debug("Task %s current checksum: %.15s cached checksum: %.15s", taskToRun.Name, currentDigest, cachedDigest)
 
@@ -266,38 +247,45 @@ func (s *SpokFile) run(stream iostream.IOStream, runner shell.Runner, force bool
 		skipped := false
 
 		switch {
-		case cachedDigest == "" || currentDigest != cachedDigest:
-			// The digest is either empty or out of date, in which case the action to be taken is the same
-			// update the cache digest and run the task
-			if updateCache {
-				cachedState.Set(taskToRun.Name, currentDigest)
+		case force || len(toHash) == 0 || cachedDigest == "" || currentDigest != cachedDigest:
+			// The task has to run. The cache is kept per task: the digest on disk must only ever
+			// describe the inputs of this task's last successful run, whatever the other tasks
+			// in this run do and even if spok is interrupted half way through.
+			// So forget the old digest before running...
+			if cachedDigest != "" {
+				cachedState.Set(taskToRun.Name, "")
+				if err := cachedState.Dump(cachePath); err != nil {
+					return nil, err
+				}
 			}
 			result, err = taskToRun.Run(runner, stream, s.Env())
 			if err != nil {
 				return nil, fmt.Errorf("Task %q encountered an error: %w", taskToRun.Name, err)
 			}
+			// ...and record the new one only if the task succeeded (a task with no file
+			// dependencies is never cached so it always runs). If it failed, its last
+			// successful run is still the one described by the old digest.
+			newDigest := cachedDigest
+			if result.Ok() {
+				newDigest = currentDigest
+			}
+			if len(toHash) != 0 && newDigest != "" {
+				s.logger.Debug("Updating cached state for task %s", taskToRun.Name)
+				cachedState.Set(taskToRun.Name, newDigest)
+				if err := cachedState.Dump(cachePath); err != nil {
+					return nil, err
+				}
+			}
 
-		case currentDigest == cachedDigest:
+		default:
 			// This task has been run before and its digest has not changed, therefore
 			// we don't need to run it again
 			skipped = true
-			updateCache = false
 		}
 
 		// Gather up all the task results
 		results = append(results, task.Result{CommandResults: result, Task: taskToRun.Name, Skipped: skipped})
 		simhook.Point("run.task.after", taskToRun.Name)
-	}
-
-	// Only update the cache if force was not set, the task declares file dependencies
-	// and the task run was successful
-	if !force && updateCache && results.Ok() {
-		s.logger.Debug("Updating cached state")
-		simhook.Point("run.dump.before", "")
-		if err := cachedState.Dump(cachePath); err != nil {
-			return nil, err
-		}
-		simhook.Point("run.dump.after", "")
 	}
 
 	return results, nil
